@@ -146,7 +146,7 @@ mkunaryexpr(enum tokenkind op, struct expr *base)
 	case TMUL:
 		if (base->type->kind != TYPEPOINTER)
 			error(&tok.loc, "cannot dereference non-pointer");
-		if (base->kind == EXPRUNARY && base->op == TBAND) {
+		if (base->kind == EXPRUNARY && base->op == TBAND && !(base->decayed && base->base->type->kind == TYPEARRAY)) {
 			type = base->type->base;
 			expr = base->base;
 			expr->type = type;
